@@ -1,5 +1,5 @@
 """C17 -- waiting for an event returns the first match or times out, whatever the timing (safety part)."""
-from pyvc.runner import Check, TaskSpec, run_tasks
+from pyvc.runner import Check, TaskSpec, run_tasks, PY_FULL
 from contracts import client as C
 from checks import common
 
@@ -9,9 +9,9 @@ def run(tier, seed):
     specs = []
     for cond in ("expect", "initial", "check"):
         for ek in ("value", "state"):
-            specs.append(TaskSpec("%s/%s/timeout/polling" % (cond, ek), "contracts.client", "task_c17", (cond, ek, True, True)))
-    specs.append(TaskSpec("expect/value/no-timeout/no-polling", "contracts.client", "task_c17", ("expect", "value", False, False)))
-    specs.append(TaskSpec("initial/state/timeout/no-polling", "contracts.client", "task_c17", ("initial", "state", True, False)))
+            specs.append(TaskSpec("%s/%s/timeout/polling" % (cond, ek), "contracts.client", "task_c17", (cond, ek, True, True), replay_kind="client.wait", python=PY_FULL, scenario=True))
+    specs.append(TaskSpec("expect/value/no-timeout/no-polling", "contracts.client", "task_c17", ("expect", "value", False, False), replay_kind="client.wait", python=PY_FULL, scenario=True))
+    specs.append(TaskSpec("initial/state/timeout/no-polling", "contracts.client", "task_c17", ("initial", "state", True, False), replay_kind="client.wait", python=PY_FULL, scenario=True))
     chk.add_results(run_tasks(specs))
     chk.function(C.CLIENT, "BaseClient.waitforevent")
     chk.function(C.CLIENT, "BaseClient.onevent")
@@ -25,5 +25,8 @@ def run(tier, seed):
         "interval' -- these follow from the assumed asyncio.sleep contract and the segment structure checked here; liveness of the wait itself",
         "the precondition `assert 1 == sum(...)` (exactly one of expect/initial/check) is executed as written",
     ]
+    chk.standin_on_out_of_reach("native virtual-clock waits", "client.wait", {"small": tier == "quick"}, python=PY_FULL, always=True,
+                                bound_text="real waitforevent on a virtual-clock event loop: condition kinds x event kinds x timeout {none, 2, 4} x polling {off, (1,1), (0.5,2)} x arrival instants of "
+                                           "matching / non-matching events on a quarter grid (no ties); checks first-match, completion instant, timeout instant, polling instants, callbacks left")
     chk.min_obligations = 300
     return chk.finish()
